@@ -271,8 +271,8 @@ func (c *c02Case) stepCommit(h *c02Handle) {
 			h.synced = c.m.cur()
 		}
 		c.classes["noop_same_root_commit"] = true
-	case ok && last != before && !c.journal && cur == before && manBefore != nil && bytes.Equal(manBefore, manAfter):
-		// Candidate finding C02-same-state-cas-success: the CAS was lost (last is not the
+	case ok && last != before && !c.journal && cur == before && manBefore != nil && bytes.Equal(manBefore, manAfter) && vh.OpenFinding("C02", "C02-same-state-cas-success"):
+		// Known finding C02-same-state-cas-success (listed open in known_findings.json): the CAS was lost (last is not the
 		// persisted root) but the persisted state already was byte for byte the state this
 		// commit wanted to write (same root, same content-addressed table files, hence the
 		// same lock hash), and updateManifest takes "returned lock == my new lock" for success.
@@ -496,7 +496,7 @@ func TestVerif_C02(t *testing.T) {
 		"after a commit that returned an error the chunks that handle had put are no longer required to be readable (the store documents dropping the memtable on a dangling reference)",
 		"read-only journal openers are not required to observe later roots on Rebase (their view is fixed at open); a fresh open is",
 		"new roots are always addresses of chunks (never the zero hash); chunks carry no references",
-		"candidate finding C02-same-state-cas-success is excluded from judgement and counted (excluded_known): a lost CAS is reported as success when the persisted state already is byte for byte the state the commit wanted to write (same root and same content-addressed table files, so the lock hashes coincide and the manifest file is not rewritten); the post-state equals that of a real success")
+		"known finding C02-same-state-cas-success (open in known_findings.json) is excluded from judgement and counted (excluded_known) while it is listed; without the entry it is a violation: a lost CAS is reported as success when the persisted state already is byte for byte the state the commit wanted to write (same root and same content-addressed table files, so the lock hashes coincide and the manifest file is not rewritten); the post-state equals that of a real success")
 	defer rec.Write(t)
 	logrus.SetLevel(logrus.ErrorLevel) // the journal logs a warning on every read-only close
 	t.Run("pinned_same_state_cas", func(t *testing.T) {
@@ -509,9 +509,10 @@ func TestVerif_C02(t *testing.T) {
 			if vh.OpenFinding("C02", "C02-same-state-cas-success") {
 				vh.ReportKnown("C02", "C02-same-state-cas-success", what)
 			} else {
-				t.Logf("candidate finding C02-same-state-cas-success (not listed in known_findings.json; tolerated, see assumptions): %s", what)
+				vh.NoteViolation(t.Name(), "", `{"case":"empty dir; stores A and B opened; A: Put(x), Commit(x,0)=true; B (not rebased): Put(x), Commit(x,0)","got":"true","want":"false (persisted root is x, not 0)"}`)
+				t.Errorf("%s", what)
 			}
 		}
 	})
-	vh.Check(t, "schedule", 600, 900, func(rt *rapid.T) { c02RunCase(t, rt, rec) })
+	vh.Check(t, "schedule", 600, 700, func(rt *rapid.T) { c02RunCase(t, rt, rec) })
 }
